@@ -164,8 +164,9 @@ CHECKS = {
              'entity-missing / overflow / extension errors, for the whole expression language (C15_strict_sound); PERMISSIVE mode - refuted with a witness '
              '(C15_permissive_refuted = known finding F29, pinned by the corpus). Policy level: Impl/ValidatePolicy.v models Validator.Policy (scopes, action application, '
              'request environments, conditions; vverdict correspondence on 17k policies) and C15_policy_sound states the property itself for accepted policies. The '
-             'conformance checkers (entity.go, request.go) are specified by env_ok / request_env / actions_conform and exercised by the direct oracle: random schemas x '
-             'typed and hazard policies x conforming data.',
+             'conformance checkers (entity.go, request.go, check_value.go) are modelled too (Impl/Conform.v, `conform` correspondence on Validator.Entity / Entities / Request verdicts): check_value decides '
+             'type inhabitation exactly, what Entities / Request accept satisfies env_ok / request_env / actions_conform / store_types_known, and C15_end_to_end composes the three: policy accepted, store '
+             'accepted, request accepted => no type error. Direct oracle: random schemas x typed and hazard policies x conforming data.',
         note=TB + 'Hypotheses of the strict theorem: record types of the schema have distinct keys; attribute names shorter than 10^39 bytes (model artifact); '
              'no hypothesis on the data beyond conformance as Validator.Entity / Validator.Request decide it (action entities: parents = closure of the declared groups). The proof found F41, F42, F43 (fixed). '
              'F29 is a known finding.',
